@@ -54,6 +54,7 @@ pub fn main(args: &[String]) -> ! {
     let bytes_of = |v: &Value| -> Vec<u8> { v.as_array().unwrap().iter().map(|b| b.as_u64().unwrap() as u8).collect() };
     for rec in &recs {
         rep.evaluations += 1;
+        inflight(rec);
         if rec.get("ops").is_some() {
             // multiset level
             let ops = rec["ops"].as_array().unwrap();
